@@ -172,7 +172,7 @@ P["C12"] = {
  "quick": [job("H_C12_seq", conc=True, reach=["checked"], L=2, first=f) for f in range(14)] +
           [job("H_C12_seq", conc=True, reach=["checked"], L=3, first=7, second=9, third=9, oneid=1, lazy=1), job("H_C12_seq", conc=True, reach=["checked"], L=4, first=7, second=9, third=9, oneid=1, lazy=1),
            job("H_C12_seq", conc=True, reach=["checked"], L=2, first=7, lazy=1)] +
-          [job("H_C12_method", reach=["parsed", "error"], n=n) for n in (1, 3, 5)] + [job("H_C12_method", reach=["error"], n=0), job("H_selftest_lib", reach=["checked"])],
+          [job("H_C12_method", reach=["parsed", "error"], n=n) for n in (2, 3, 5)] + [job("H_C12_method", reach=["error"], n=0), job("H_C12_method", reach=["error"], n=1), job("H_selftest_lib", reach=["checked"])],
  "thorough": [job("H_C12_seq", conc=True, reach=["checked"], L=3, first=f) for f in range(14)] +
           [job("H_C12_seq", conc=True, reach=["checked"], L=3, first=7, second=9, lazy=1), job("H_C12_seq", conc=True, reach=["checked"], L=4, first=7, second=9, third=9, oneid=1, lazy=1)],
 }
